@@ -146,9 +146,18 @@ DEFAULT_CLAIM = {
     "proof": "Every obligation generated from the current source of the functions under contract (post-conditions, raises-iff, loop invariants, safety, lemmas) is discharged for all inputs of the declared types; bounded stand-ins cover the functions outside the executed subset and are labelled bounded, never counted as proved.",
     "other": "Contracts on the real functions: the obligations within the executed subset are proved; the property's equations are checked by bounded stand-ins (stated bounds) against independent reference implementations - not a proof.",
 }
-NOT_APPLICABLE = {
-    "C10": "closure over updater, signer, finalizer, extractor, sighash and the interpreter (>40 functions, dynamic dispatch) plus an unforgeability clause: no contract within reach states it; its single-function facts are claimed under C02, C03, C09, C12, C18",
-}
+NOT_APPLICABLE = {}
+
+PROPS["C10"] = dict(
+    level="other",
+    modules=["contracts.c_pipeline", "contracts.c_dsa"],
+    not_decided=["the closure as a deductive statement: it ranges over updater, signer, finalizer, extractor, sighash and the interpreter (>40 functions, dynamic dispatch) and no function-level contract within the executed subset states it",
+                 "'a signature never verifies for a different key' for all keys (unforgeability): sampled, not proved",
+                 "psbt version 2 through the pipeline; musig2 and combo descriptors"],
+    assumptions=["sha256 / ripemd160 of hashlib; the engine's verdict is the oracle of this property by its own statement (C08 holds the engine to Core)"],
+    explanation="Bounded stand-in on a sidecar driver over the real roles (descriptor Updater, psbt.sign with the library's SoftwareSigner, finalize, extract_tx, verify_transaction): every generated spend is accepted and every committed single-field alteration rejected; BIP322 and Bitcoin message signatures verify only for their own message, address and key. Not proved.",
+    bounded=[],
+)
 
 PROPS["C16"] = dict(
     level="other",
